@@ -330,6 +330,9 @@ def sub_cli(case):
     relation = pipeline.REL_CLI.get(o["relation"], o["relation"])
     unit = o["delta_unit"]
     chain0 = (not o["all_pairs"]) and unit in ("f", "r", "d")
+    ratio_skips = False
+    if relation == "point_distance_error_ratio":
+        ratio_skips = True   # unless shown otherwise below
     if relation == "point_distance_error_ratio" and chain0:
         # pairs with zero reference distance are skipped, then stored consecutive poses are no longer the pairs
         if unit != "f":
@@ -341,6 +344,8 @@ def sub_cli(case):
                 chain0 = False
             elif any(float(np.linalg.norm(Pr_sel[k + dl] - Pr_sel[k])) == 0.0 for k in range(0, len(rsel) - dl, dl)):
                 chain0 = False
+            else:
+                ratio_skips = False
     if stored_idx is not None:
         if stored_idx[0] != 0 or (not o["all_pairs"] and any(b <= a for a, b in zip(stored_idx, stored_idx[1:]))):
             raise Mismatch("stored poses %s are not the first pose followed by increasing pair ends" % stored_idx[:10], observed="stored_traj")
@@ -364,7 +369,7 @@ def sub_cli(case):
             except Bad as b:
                 raise Mismatch("evo_rpe: the stored pair chain %s is not the selection on the processed %s: %s" % (
                     pairs[:8], "reference" if src_is_ref else "estimate", b.msg), observed="pair_selection", clause=b.clause)
-    if chain0 or (stored_idx is None and unit == "f" and not o["all_pairs"]):
+    if (chain0 or (stored_idx is None and unit == "f" and not o["all_pairs"])) and not ratio_skips:
         n = nvals + 1
         pairs = [(i, i + 1) for i in range(n - 1)]
         vals, kept = rm.rpe_values(sref["poses"], sest["poses"], pairs, relation)
